@@ -182,6 +182,87 @@ func hashedFields(fn *ssa.Function) (map[string]bool, []ssa.CallInstruction) {
 	return fields, writes
 }
 
+// mustHashed reports whether field k ("pkg.Type.field") is written into the
+// hash computed by fn on every path: some hash write has an argument that
+// derives from the field on every alternative (φ edges, stores), and that
+// write cannot be bypassed on the way to Hash.Sum (or, inside a loop whose
+// header dominates Sum, cannot be bypassed within an iteration).
+func mustHashed(fn *ssa.Function, writes []ssa.CallInstruction, k string) (bool, string) {
+	isField := func(x ssa.Value) bool {
+		var base ssa.Value
+		var idx int
+		switch x := x.(type) {
+		case *ssa.FieldAddr:
+			base, idx = x.X, x.Field
+		case *ssa.Field:
+			base, idx = x.X, x.Field
+		default:
+			return false
+		}
+		owner, f := FieldOf(base.Type(), idx)
+		return f != nil && shortOwner(owner)+"."+f.Name() == k
+	}
+	var sum ssa.Instruction
+	for _, ci := range Calls(fn, false) {
+		if CalleeName(ci.Common()) == cachePkg+".Hash.Sum" {
+			sum = ci
+		}
+	}
+	if sum == nil {
+		return false, "no call to Hash.Sum"
+	}
+	why := "no hash write derives from it"
+	for _, w := range writes {
+		if w.Parent() != fn {
+			continue
+		}
+		args := w.Common().Args
+		if CalleeName(w.Common()) != cachePkg+".NewHash" && len(args) > 1 {
+			args = args[1:]
+		}
+		derives := false
+		for _, a := range args {
+			if MustDerive(a, isField, true) {
+				derives = true
+			}
+		}
+		if !derives {
+			for _, a := range args {
+				if Derives(a, isField) || SliceHas(a, SliceOpts{ThroughCalls: true}, isField) {
+					why = "the value written at " + fn.Prog.Fset.Position(w.Pos()).String() + " depends on it only on some paths (another alternative of the written value does not)"
+				}
+			}
+			continue
+		}
+		// unconditional?
+		t, _ := PathAvoiding(fn, fn.Blocks[0].Instrs[0], func(in ssa.Instruction) bool { return in == sum }, func(in ssa.Instruction) bool { return in == ssa.Instruction(w) }, nil)
+		if t == nil {
+			return true, ""
+		}
+		// inside a loop over a list: unconditional per iteration
+		for _, b := range fn.Blocks {
+			if !(strings.HasPrefix(b.Comment, "rangeindex.loop") || strings.HasPrefix(b.Comment, "rangeiter.loop")) || !b.Dominates(w.Block()) || !b.Dominates(sum.Block()) {
+				continue
+			}
+			var body *ssa.BasicBlock
+			for _, sc := range b.Succs {
+				if sc.Dominates(w.Block()) {
+					body = sc
+				}
+			}
+			if body == nil {
+				continue
+			}
+			t, _ := PathAvoiding(fn, body.Instrs[0], func(in ssa.Instruction) bool { return in.Block() == b || in == sum }, func(in ssa.Instruction) bool { return in == ssa.Instruction(w) }, nil)
+			if t == nil || body.Instrs[0] == ssa.Instruction(w) {
+				return true, ""
+			}
+		}
+		why = "the hash write at " + fn.Prog.Fset.Position(w.Pos()).String() + " can be bypassed"
+	}
+	return false, why
+}
+
 // linkedPackages returns the import closure of cmd/staticcheck.
 func linkedPackages(c *Ctx) map[string]bool {
 	root := c.Pkgs[Module+"/cmd/staticcheck"]
@@ -309,7 +390,11 @@ func runC04(c *Ctx) {
 			key := k + "::input-in-key"
 			e, listed := table["input"][k]
 			if hashedDo[k] && !(listed && e.class == "filehash") {
-				c.Check(key, s.pos, true, "read on the miss path and written into the action key")
+				must, why := mustHashed(do, doWrites, k)
+				if k == "runner.packageAction.Package" || k == "runner.subrunner.Runner" || k == "runner.packageAction.baseAction" {
+					must = true // containers: their fields are accounted for individually
+				}
+				c.Check(key, s.pos, must, "read on the miss path and written into the action key on every path: %s", why)
 				continue
 			}
 			switch {
@@ -325,6 +410,9 @@ func runC04(c *Ctx) {
 				why := ""
 				if !ok {
 					why = "covering field " + cover + " is no longer written into the key"
+				} else if must, w := mustHashed(do, doWrites, cover); !must {
+					ok = false
+					why = "covering field " + cover + " is not written into the key on every path: " + w
 				}
 				if ok && cover == "loader.PackageSpec.Hash" && !hashedCH[k] {
 					ok = false
